@@ -169,10 +169,12 @@ func checkC15(t TB, c HistoryCase) c15Outcome {
 		if d := rsDegree(s); d > 0 {
 			degs[d] = true
 		}
-		// immediate repetition
-		bc2, err2, pv2 := encodeSpec(s)
-		if fp := enc.Fingerprint(bc2, err2, pv2); fp != inproc[i] {
-			failf(t, P, K, c, "call %d (%s) gives a different result when repeated in the same process", i, s.Label())
+		// immediate repetitions
+		for r := 0; r < 3; r++ {
+			bc2, err2, pv2 := encodeSpec(s)
+			if fp := enc.Fingerprint(bc2, err2, pv2); fp != inproc[i] {
+				failf(t, P, K, c, "call %d (%s) gives a different result when repeated in the same process", i, s.Label())
+			}
 		}
 		// aliasing probe for the only []byte entry point
 		if s.Fam == "aztec" && err == nil && pv == nil && len(s.Content) > 0 {
@@ -379,4 +381,51 @@ func TestC15Orders(t *testing.T) {
 	if ct.Failed() {
 		t.Fatalf("%s", ct.first)
 	}
+}
+
+// checkDeterminism: one call repeated n times in this process must always give the same barcode
+// (map iteration order, pooled buffers, lazily built tables must not show).
+func checkDeterminism(t TB, s EncSpec) bool {
+	bc, err, pv := encodeSpec(s)
+	first := enc.Fingerprint(bc, err, pv)
+	for r := 1; r < 12; r++ {
+		bc2, err2, pv2 := encodeSpec(s)
+		if fp := enc.Fingerprint(bc2, err2, pv2); fp != first {
+			failf(t, "C15", "determinism", s, "repetition %d of the same call (%s) in the same process returned a different barcode", r, s.Label())
+		}
+	}
+	return err == nil && pv == nil
+}
+
+func init() { register("determinism", func(t TB, s EncSpec) { checkDeterminism(t, s) }) }
+
+// TestC15Determinism: many single calls, 12 executions each, weighted to the encoders that search or use
+// map-based tables (Aztec, PDF417, Code 128, Code 39/93).
+func TestC15Determinism(t *testing.T) {
+	st := NewStats("C15", "determinism")
+	runRapid(t, st, func(rt *rapid.T) {
+		fam := rapid.SampledFrom([]string{"aztec", "aztec", "aztec", "pdf417", "pdf417", "code128", "code39", "code93", "qr", "datamatrix", "codabar", "ean", "2of5", "itf", "code128nc"}).Draw(rt, "fam")
+		s := genEncSpecFam(rt, fam, rapid.SampledFrom([]int{0, 1, 1}).Draw(rt, "size"))
+		if fam == "aztec" && rapid.Bool().Draw(rt, "ties") {
+			// characters that exist in several Aztec modes at equal cost: bare CR, space, comma, period
+			n := rapid.IntRange(1, 12).Draw(rt, "n")
+			b := make([]byte, n)
+			for i := range b {
+				b[i] = rapid.SampledFrom([]byte("\r \r.,:;AB a1\n!")).Draw(rt, "tie")
+			}
+			s.Content = BStr(b)
+		}
+		if rapid.IntRange(0, 3).Draw(rt, "col") == 0 {
+			s.Scheme = genScheme(rt)
+		}
+		ok := checkDeterminism(rt, s)
+		st.Class(fmt.Sprintf("%s accepted=%v", fam, ok))
+		if ok {
+			j, _ := json.Marshal(s)
+			st.NonTrivial(H(j))
+		}
+		if len(s.Content) < 10 {
+			st.Sample("determinism "+fam, s)
+		}
+	})
 }
